@@ -33,6 +33,9 @@ func (vm *VM) timeBits() int {
 }
 
 func (vm *VM) clockNow() *Term {
+	if vm.inInit {
+		return mkBV(64, uint64(clockBase))
+	}
 	if f, ok := vm.P.env["clock.frozen"]; ok && vm.P.lastNow != nil && f.(*Term).BoolVal() {
 		return vm.P.lastNow
 	}
